@@ -1,5 +1,5 @@
 (* Props/C09More.v — property C09, stickiness of StopIteration for the classes Props/C09.v left open
-   (C09_sticky_remaining_classes_partial): PDict, PArrayIndex over a literal list, PSequence with pattern items, PRound
+   (see the comment above C09_sticky_stable_state): PDict, PArrayIndex over a literal list, PSequence with pattern items, PRound
    with pattern arguments.  Lemmas in Pat/StickyProofs2.v.
 
    gpat p   the fragment fpat of Props/C09.v (C09_sticky_transformers) with, in addition and nested anywhere:
@@ -18,7 +18,7 @@ Section AnyOperators.
   Variable binop : op -> val -> val -> outcome val.
   Variable LMAX : nat.
 
-  (* the full statement of C09_sticky_remaining_classes_partial on the extended fragment: once next() has raised
+  (* the full statement quoted above C09_sticky_stable_state on the extended fragment: once next() has raised
      StopIteration - an item of the sequence ended, the repeats ran out, an argument of PRound ended, a value of the dict
      ended, the selected item or the index ended - no later next() returns a value *)
   Theorem C09_more_sticky : forall f p p',
@@ -100,8 +100,10 @@ Qed.
 (* WHERE THE FULL STATEMENT IS FALSE: PArrayIndex over a literal list with pattern items AND a pattern index.  The item that
    has ended raises StopIteration, the next index value selects an item that is still alive: 1, StopIteration, 5, 6.  The
    implementation does the same (PArrayIndex([PSequence([1],1), PSequence([5,6,7],1)], PSequence([0,0,1,1],1)) gives
-   1, StopIteration, 5, 6, StopIteration, ...): model and code agree; the class revives by design, like PReset and the
-   pattern-valued terminating parameters the statement already excludes.  Such objects are outside gpat. *)
+   1, StopIteration, 5, 6, StopIteration, ...): model and code agree.  Nothing in the documented purpose of the class needs
+   this; it is a violation of C09, the KNOWN FINDING C09-parrayindex-revives (known_findings.d/C09.json,
+   findings/C09-parrayindex-revives.md with the proposed repair - a flag, i.e. a new field of the model's constructor); the
+   PArrayIndex stratum of harness/c09.py generates such objects and reports it as known.  They are outside gpat. *)
 Definition ex_revives : pat := PArrayIndex (AL [AP (seq_ [1] 1); AP (seq_ [5; 6; 7] 1)]) (AP (seq_ [0; 0; 1; 1] 1)).
 Example C09_more_arrayindex_revives :
   fst (outputs Val.binop 100 30 6 ex_revives) = [Yield (VInt 1); Stop; Yield (VInt 5); Yield (VInt 6); Stop; Stop].
